@@ -271,6 +271,22 @@ func C18(c *fw.Ctx) {
 			}
 		}
 	}
+	// expression trees of depth 2 over every node form, numeric leaves, printed
+	n = 0
+	{
+		leaves := []*model.N{model.Num(3)}
+		var t1 []*model.N
+		exprForms(leaves, false, func(e *model.N) { t1 = append(t1, e) })
+		d1 := append(append([]*model.N{}, leaves...), t1...)
+		exprForms(d1, false, func(e *model.N) {
+			n++
+			if n%5 != 0 && !(e.K == "un" || (e.K == "bin" && (e.A[1].K == "un" || e.A[0].K == "un"))) {
+				return
+			}
+			prog := []*model.N{model.Var("v", model.Num(2)), model.Var("a", model.Arr(model.Num(5), model.Num(6))), model.Print(e.Clone()), model.Print(model.Id("v"))}
+			corpus = append(corpus, item{model.Render(parenAll(prog)), "", "expression-tree", n%211 == 0})
+		})
+	}
 	// fault x position programs (diagnostics quote names)
 	faults, poss := c06Faults(), c06Positions()
 	n = 0
@@ -392,6 +408,34 @@ func C18(c *fw.Ctx) {
 				}
 			}
 			check("layout-"+li.name, "all gaps", lx.rebuild(all, nil), nil)
+		}
+		// compact layout: no blank at all between two tokens wherever the documented lexer still
+		// reads the same two tokens (the original is then "the compact text with blanks inserted")
+		{
+			var sb strings.Builder
+			for ti, t := range lx.toks {
+				if ti > 0 {
+					prev := lx.toks[ti-1]
+					pair, errs := model.Lex(prev.Lexeme + t.Lexeme)
+					if len(errs) != 0 || len(pair) != 3 || pair[0].Lexeme != prev.Lexeme || pair[0].Kind != prev.Kind || pair[1].Lexeme != t.Lexeme || pair[1].Kind != t.Kind {
+						sb.WriteByte(' ')
+					}
+				}
+				sb.WriteString(t.Lexeme)
+			}
+			compact := sb.String()
+			ct, cerrs := model.Lex(compact)
+			same := len(cerrs) == 0 && len(ct) == len(lx.toks)+1
+			for ti := 0; same && ti < len(lx.toks); ti++ {
+				if ct[ti].Kind != lx.toks[ti].Kind || ct[ti].Lexeme != lx.toks[ti].Lexeme {
+					same = false
+				}
+			}
+			if same {
+				check("layout-compact", "all blanks and comments removed", compact, nil)
+			} else {
+				c.Skip("compact rendering changes the documented tokenisation")
+			}
 		}
 		// mixed layout: a different insert in every gap
 		mixed := map[int]string{}
